@@ -220,24 +220,52 @@ def _r4(ctx):
     ctx.rule("R4", "--lines: inclusive ranges, ':' = '-', comma separated; selection by line number")
     f = ctx.func("osaca.get_line_range")
     p = f.params()[0]
-    ok_rep = bool(pm.find("%s = %s.replace(':', '-')" % (p, p), f.node))
-    ok_split = bool(pm.find("M_l = %s.split(',')" % p, f.node))
-    rng = pm.find("M_r = list(range(M_s, M_e + 1))", f.node) + pm.find("M_r = range(M_s, M_e + 1)", f.node)
-    st = pm.find("M_s = int(M_x.split('-')[0])", f.node)
-    en = pm.find("M_e = int(M_x.split('-')[1])", f.node)
-    ok_rng = bool(rng) and bool(st) and bool(en) and U(rng[0][1]["M_s"]) == U(st[0][1]["M_s"]) and U(rng[0][1]["M_e"]) == U(en[0][1]["M_e"])
-    single = bool(pm.find("M_l.append(int(M_x))", f.node))
-    ctx.check(ok_rep, "R4", "':' is accepted as range separator", f.where(), "':' is no longer mapped to '-'", f.qname, "colon")
-    ctx.check(ok_split, "R4", "entries are comma separated", f.where(), "entries are not split on ','", f.qname, "comma")
-    ctx.check(ok_rng, "R4", "a-b is inclusive: range(a, b + 1)", f.where(), "range expansion is not range(start, end + 1): %s" % (
-        [U(n) for n, _ in rng] or "not found"), f.qname, "inclusive range")
-    ctx.check(single, "R4", "single numbers are taken as they are", f.where(), "single line numbers are not appended as int",
-              f.qname, "single numbers")
-    if rng:
-        acc = pm.find_any(["M_a += %s" % U(rng[0][1]["M_r"]), "M_a.extend(%s)" % U(rng[0][1]["M_r"])], f.node)
-        rets = [r for r in ast.walk(f.node) if isinstance(r, ast.Return)]
-        ctx.check(bool(acc) and bool(rets) and U(rets[0].value) == U(acc[0][1]["M_a"]), "R4", "all expanded lines are returned",
-                  f.where(), "expanded ranges are not accumulated into the returned list", f.qname, "accumulate")
+    flow = C.flow_of(f)
+    CTn = lambda e: C.CT(U(flow.subst(e)))
+    # the entries: one loop over <argument with ':' mapped to '-'>.split(',')
+    want_iter = C.CT("%s.replace(':', '-').split(',')" % p)
+    loops = [n for n in ast.walk(f.node) if isinstance(n, ast.For) and isinstance(n.target, ast.Name)]
+    ent = [n for n in loops if CTn(n.iter) in (want_iter, C.CT("%s.split(',')" % p))]
+    if len(ent) != 1:
+        ctx.unknown("R4", f.where(), "the loop over the comma separated entries of --lines was not found in this form", f.qname, "entries")
+        lp = None
+    else:
+        lp = ent[0]
+        ctx.check(CTn(lp.iter) == want_iter, "R4", "':' is accepted as range separator", f.where(lp), "':' is no longer mapped to '-'",
+                  f.qname, "colon")
+        ctx.check(True, "R4", "entries are comma separated", f.where(lp), "", f.qname, "comma")
+    if lp is not None:
+        L = lp.target.id
+        rng = [c for c in ast.walk(lp) if isinstance(c, ast.Call) and isinstance(c.func, ast.Name) and c.func.id == "range"]
+        if len(rng) != 1 or len(rng[0].args) != 2 or rng[0].keywords:
+            ctx.unknown("R4", f.where(lp), "the expansion of an a-b entry is not a single two-argument range(..)", f.qname, "inclusive range")
+        else:
+            r = rng[0]
+            lo, hi = CTn(r.args[0]), CTn(r.args[1])
+            ok = lo == C.CT("int(%s.split('-')[0])" % L) and hi == C.CT("int(%s.split('-')[1]) + 1" % L)
+            ctx.check(ok, "R4", "a-b is inclusive: range(a, b + 1)", f.where(r),
+                      "range expansion is not range(int(a), int(b) + 1) over the two parts of the entry: %s" % U(flow.subst(r)), f.qname,
+                      "inclusive range")
+            # the expanded range and the single numbers reach the returned list
+            rets = [x for x in ast.walk(f.node) if isinstance(x, ast.Return) and x.value is not None]
+            acc = U(rets[0].value) if len(rets) == 1 and isinstance(rets[0].value, ast.Name) else None
+            if acc is None:
+                ctx.unknown("R4", f.where(), "the result is not one accumulated list", f.qname, "accumulate")
+            else:
+                rtexts = {C.CT(U(flow.subst(r))), C.CT("list(%s)" % U(flow.subst(r)))}
+                adds = []
+                for st in ast.walk(lp):
+                    if isinstance(st, ast.AugAssign) and isinstance(st.op, ast.Add) and U(st.target) == acc:
+                        adds.append(CTn(st.value))
+                    if isinstance(st, ast.Expr) and isinstance(st.value, ast.Call) and isinstance(st.value.func, ast.Attribute) \
+                            and U(st.value.func.value) == acc and st.value.func.attr in ("extend", "append") and st.value.args:
+                        adds.append((st.value.func.attr, CTn(st.value.args[0])))
+                got_rng = any(a in rtexts or (isinstance(a, tuple) and a[0] == "extend" and a[1] in rtexts) for a in adds)
+                got_one = any((isinstance(a, tuple) and a == ("append", C.CT("int(%s)" % L))) or a == C.CT("[int(%s)]" % L) for a in adds)
+                ctx.check(got_rng, "R4", "all expanded lines are returned", f.where(lp),
+                          "expanded ranges are not accumulated into the returned list", f.qname, "accumulate")
+                ctx.check(got_one, "R4", "single numbers are taken as they are", f.where(lp), "single line numbers are not appended as int",
+                          f.qname, "single numbers")
     i = ctx.func("osaca.inspect")
     # the kernel under --lines = the parsed lines whose number is named, each once, in file order
     flow = C.flow_of(i)
